@@ -19,7 +19,13 @@ from concurrent.futures import ThreadPoolExecutor
 import vlib
 
 LEVEL = "exploration"
-ALL_DEVS = ["SelfImportDoubling", "ImportLadder", "EmptyMacroEmbed"]
+ALL_DEVS = ["SelfImportDoubling", "ImportLadder", "EmptyMacroEmbed", "MacroCloseNesting", "DeepImportTree"]
+# every value a run may use must be in the constants of the trace spec (gadget names are looked up there)
+MCLOSES_ALL = (3, 300, 2000)
+SNIPDEEPS_ALL = (100, 200, 254)
+CHAINS_ALL = ((1, 50), (1, 200), (2, 127), (3, 150), (4, 150), (1, 255), (7, 40))
+DEPTHS_ALL = (1, 2, 3, 255, 256, 257, 300)
+LADDERS_ALL = (3, 10, 24)
 
 CFG = """SPECIFICATION %(spec)s
 CONSTANTS
@@ -29,6 +35,9 @@ CONSTANTS
   RawLen = %(rawlen)d
   Depths = %(depths)s
   Ladders = %(ladders)s
+  MacroCloses = %(mcloses)s
+  SnipDeeps = %(snipdeeps)s
+  FileChains = %(chains)s
   Devs = %(devs)s
 %(tail)s
 CHECK_DEADLOCK FALSE
@@ -43,7 +52,9 @@ STYLES_ALL = [[], ["crlf"], ["tabs", "comments"], ["quote"], ["same"], ["cont"],
 
 def tla_set(xs):
     def one(x):
-        if isinstance(x, (list, tuple, set)):
+        if isinstance(x, tuple):
+            return "<<" + ", ".join(one(y) for y in x) + ">>"
+        if isinstance(x, (list, set)):
             return tla_set(x)
         if isinstance(x, str):
             return '"%s"' % x
@@ -52,12 +63,13 @@ def tla_set(xs):
 
 
 def cfg(spec="SpecDoc", maxitems=0, styles=STYLE_PLAIN, mutlen=0, rawlen=0, depths=(3,), ladders=(3,),
-        devs=(), inv="EmitRows", post=None):
+        devs=(), inv="EmitRows", post=None, mcloses=(), snipdeeps=(), chains=()):
     tail = ("INVARIANTS " + inv) if inv else ""
     if post:
         tail += "\nPOSTCONDITION " + post
     return CFG % dict(spec=spec, maxitems=maxitems, styles=tla_set(styles), mutlen=mutlen, rawlen=rawlen,
-                      depths=tla_set(depths), ladders=tla_set(ladders), devs=tla_set(devs), tail=tail)
+                      depths=tla_set(list(depths)), ladders=tla_set(list(ladders)), devs=tla_set(list(devs)), tail=tail,
+                      mcloses=tla_set(list(mcloses)), snipdeeps=tla_set(list(snipdeeps)), chains=tla_set([1000 * k + d for k, d in chains]))
 
 
 def rows_of(r):
@@ -70,6 +82,8 @@ def source_of(row):
         return bytes(row["bytes"])
     if row["layer"] == "f":
         return ("file:" + row["path"]).encode()
+    if row["layer"] == "i":
+        return "\0".join(f["name"] + "\0" + "".join(f["pieces"]) for f in row["files"]).encode()
     return "".join(row["pieces"]).encode()
 
 
@@ -86,6 +100,9 @@ def brief(row, out=None):
         d["bytes"] = row["bytes"]
     elif row["layer"] == "f":
         d["path"] = row["path"]
+    elif row["layer"] == "i":
+        d.update(scenario=row["scen"], expected=row["exp"],
+                 files={f["name"]: "".join(f["pieces"])[:300] for f in row["files"]})
     else:
         d.update(doc=row["doc"], style=row["style"], mut=row["mut"], expected=row["exp"],
                  source="".join(row["pieces"])[:600])
@@ -119,7 +136,7 @@ def known_for(open_entries, verdict, row, out):
             continue
         if m.get("msg") and m["msg"] not in (out.get("msg") or ""):
             continue
-        if row["layer"] == "s":
+        if row["layer"] in ("s", "i"):
             if m.get("deviation") in verdict.get("dev", []):
                 return e
         elif row["layer"] == "m" and m.get("site") and m.get("unmodelled_rows_by_site"):
@@ -180,13 +197,17 @@ def run(ctx, replay):
     else:
         # ---- (T) exhaustive enumeration + model-level check -----------------
         styles = STYLES_ALL if thorough else STYLES_QUICK
-        depths = (1, 2, 3, 255, 256, 257, 300) if thorough else (3, 256, 257)
-        ladders = (3, 10, 24) if thorough else (3, 24)
+        depths = DEPTHS_ALL if thorough else (3, 256, 257)
+        ladders = LADDERS_ALL if thorough else (3, 24)
+        mcloses = MCLOSES_ALL if thorough else (300,)
+        snipdeeps = SNIPDEEPS_ALL if thorough else (200,)
+        chains = CHAINS_ALL if thorough else ((1, 50), (1, 200), (4, 150))
         rawlen = 4 if thorough else 3
         jobs = {
             # every document of <= 2 gadgets x styles; the documented rule must satisfy the property
             "doc": dict(workers=4, timeout=1500,
-                        cfg_text=cfg(maxitems=2, styles=styles, depths=depths, ladders=ladders, inv="RowAndModel")),
+                        cfg_text=cfg(maxitems=2, styles=styles, depths=depths, ladders=ladders, inv="RowAndModel",
+                                     mcloses=mcloses, snipdeeps=snipdeeps, chains=chains)),
             # as-is: with the deviations switched on the rule itself violates the property
             "asis": dict(workers=2, timeout=600,
                          cfg_text=cfg(maxitems=2, styles=STYLE_PLAIN, devs=ALL_DEVS, ladders=(3, 24), inv="ModelHolds")),
@@ -278,8 +299,8 @@ def run(ctx, replay):
             events = events + [c1, c2]
             selftest = {9000001: "viol", 9000002: "drift"}
 
-    tcfg = cfg(spec="TSpec", maxitems=0, depths=(1, 2, 3, 255, 256, 257, 300), ladders=(3, 10, 24),
-               devs=open_devs, inv=None, post="Post")
+    tcfg = cfg(spec="TSpec", maxitems=0, depths=DEPTHS_ALL, ladders=LADDERS_ALL, mcloses=MCLOSES_ALL,
+               snipdeeps=SNIPDEEPS_ALL, chains=CHAINS_ALL, devs=open_devs, inv=None, post="Post")
     verdicts, by_t = validate_parallel(ctx, events, tcfg, batch=4000 if thorough else max(1000, -(-len(events) // 8)), jobs=8)
 
     ok = drift = 0
@@ -313,14 +334,14 @@ def run(ctx, replay):
             what = "cfgparser.Read violates %s (outcome %s%s) on a %s row" % (
                 ",".join(sorted(v["viol"])), out["class"],
                 (": " + out["msg"][:80]) if out["class"] in ("panic", "oom", "timeout") else "",
-                {"s": "structured", "m": "mutated", "r": "raw", "f": "shipped-file"}[row["layer"]])
+                {"s": "structured", "m": "mutated", "r": "raw", "f": "shipped-file", "i": "file-import"}[row["layer"]])
             ctx.violation(what, {"property": "C20", "behaviour": by_id[t], "trace": by_t[t], "violated": sorted(v["viol"]),
                                  "readable": brief(row, out), "how": "bin/check C20 --replay <this file>"})
         elif v["drift"]:
             drift += 1
             if drift <= int(os.environ.get("VERIF_DRIFT_MAX", "20")):
                 print("DRIFT property=C20 row=%d expected=%s observed=%s doc=%s style=%s" % (
-                    t, v.get("exp"), out["class"], row.get("doc"), row.get("style")))
+                    t, v.get("exp"), out["class"], row.get("doc") or row.get("scen"), row.get("style")))
         else:
             ok += 1
     if selftest:
